@@ -7,11 +7,27 @@ import numpy as np
 from .. import gen, impl, oracle, ser, stream
 
 ID = "C02"
-LEVEL = "translation_validation"
-PROPS_MODULE = None
-THEOREMS = []
-LEAN_FILES = []
-PLANNED = ["tensordotViaFused_elem (fused path, via C05/C06 lemmas)", "einsum_elem", "toDense transport"]
+LEVEL = "proof"
+PROPS_MODULE = "SymmModel.Props.C02"
+THEOREMS = [
+    "SymmModel.C02.tensordotBlockwise_charge",
+    "SymmModel.C02.tensordotBlockwise_sectors",
+    "SymmModel.C02.tensordotBlockwise_sectors_distinct",
+    "SymmModel.C02.tensordotBlockwise_sectors_order",
+    "SymmModel.C02.tensordotBlockwise_elem",
+    "SymmModel.C02.tensordotBlockwise_elem_split",
+    "SymmModel.C02.tensordotBlockwise_elem_dense",
+    "SymmModel.C02.tensordot_scalar",
+    "SymmModel.C02.tensordotA_blockwise",
+    "SymmModel.C02.freeAxes_eq_without",
+    "SymmModel.C02.parseAxes_pair_ok",
+    "SymmModel.C02.normAxis_spec",
+    "SymmModel.C02.parseAxes_int_ok",
+    "SymmModel.C02.matmulA_matrices",
+    "SymmModel.C02.tensordotBlockwise_elem_GRat"
+]
+LEAN_FILES = ["SymmModel.Props.C02", "SymmModel.Proofs.TdotDense", "SymmModel.Proofs.TdotLemmas", "SymmModel.Proofs.Accum", "SymmModel.Proofs.BlkLemmas"]
+PLANNED = ["tensordotViaFused_elem (fused/auto path via C05/C06)", "einsum_elem", "trace_elem", "toDense transport", "result block shape w.r.t. the pruned result tables"]
 RULE = ("random contractible pairs of abelian arrays over Z2/U1/Z2Z2/U1U1/Z4 (static and generic classes), "
         "0..ndim contracted axes at random positions incl. negative axes, sparse operands, real and complex "
         "data, modes auto/fused/blockwise through method/function/autoray entry points; matmul, trace, einsum. "
